@@ -94,6 +94,9 @@ def export(cfg):
         args += ["--all-headers"]
     flags = ["-DHAVE_CONFIG_H", "-I{DIR}", "-I" + REPO, "-D__GMP_WITHIN_GMP", "-DOPERATION_{BASE}", "-w",
              "-resource-dir", RESOURCE_DIR, "-ferror-limit=0"] + cfg.flags
+    if getattr(cfg, "cxx", False):
+        args += ["--cxx"]
+        flags = ["-x", "c++", "-std=gnu++17", "-I" + REPO, "-w", "-resource-dir", RESOURCE_DIR, "-ferror-limit=0"] + cfg.flags
     exe = tool("mpir-sa")
     nb = max(1, min(JOBS, len(files)))
     batches = [files[i::nb] for i in range(nb)]
